@@ -7,7 +7,10 @@ GEN_FILES = ['Grammars']
 THEOREM_NAMES = ['run_fuel_mono', 'run_fuel_mono_false', 'word_munch', 'expandTabs_id', 'dl_domain_rt', 'dl_domain_dtype_rt', 'sl_domain_rt',
                  'sl_domain_len_rt', 'dl_domain_comment_rt', 'dl_domain_missing_assign_rejected', 'comp_domain_rt', 'resting_rt',
                  'kernel_rt', 'kernel_extra_close_rejected', 'kernel_missing_name_rejected', 'complex_rt', 'structure_rt',
-                 'reaction_plain_rt', 'reaction_info_rt', 'kernel_conc_rt', 'two_statements_rt', 'keyword_prefixed_name_rt']
+                 'reaction_plain_rt', 'reaction_info_rt', 'kernel_conc_rt', 'two_statements_rt', 'keyword_prefixed_name_rt',
+                 'document_rt', 'document_leading_rt', 'document_open_rt', 'stmtText_dl_domain', 'stmtText_dl_domain_dtype',
+                 'stmtText_sl_domain', 'stmtText_sl_domain_len', 'stmtText_comp_domain', 'stmtText_resting', 'stmtText_kernel',
+                 'stmtText_kernel_conc', 'stmtText_complex', 'stmtText_structure', 'stmtText_reaction_plain', 'stmtText_reaction_info']
 THEOREMS = ['Dsd.C13.' + t for t in THEOREM_NAMES]
 ASSUMPTIONS = [
     'pyparsing 3.3.2 is modelled by a hand-written interpreter (Model/Pyparsing.lean: whitespace/comment skipping, Word maximal munch, '
@@ -28,11 +31,13 @@ MANIFEST = {
             'spells out the former defect: names that start with or equal a statement keyword), the '
             'rejections dl_domain_missing_assign_rejected, kernel_extra_close_rejected, kernel_missing_name_rejected, plus word_munch '
             'and expandTabs_id; complex_rt and structure_rt (both strand notations), reaction_plain_rt and reaction_info_rt (type, rate, '
-            'any number of concentration units, every time unit), kernel_conc_rt (all four concentration modes), two_statements_rt '
-            '(document = concatenation of two statements separated by any number of blank lines). So every statement kind has a '
-            'kernel-checked round-trip theorem for its canonical layout; arbitrary layouts at every token boundary, decimal / '
-            'scientific numbers in reactions, error terms, documents of more than two statements, file = string and history '
-            'independence are NOT theorems: they are decided on the real parser by a '
+            'any number of concentration units, every time unit), kernel_conc_rt (all four concentration modes). DOCUMENTS: '
+            'document_rt - for ANY non-empty list of statement texts satisfying StmtText (proved for every statement kind: 12 '
+            'stmtText_* instances with the generality of the round-trip theorems), each followed by its line end and any number of '
+            'blank lines, the document parses to the list of the statements\' trees in order; document_leading_rt (leading blank lines), '
+            'document_open_rt (no final newline). So every statement kind has a kernel-checked round-trip theorem for its canonical '
+            'layout and documents are concatenations; arbitrary layouts at every token boundary, decimal / scientific numbers in '
+            'reactions, error terms, comment lines between statements, file = string and history independence are NOT theorems: they are decided on the real parser by a '
             'reference renderer over grammar-generated token trees in random layouts, and the model is compared with pyparsing on the '
             'same texts, four negative families and random mutations.',
     'note': 'pyparsing semantics is modelled by hand and tied by differential testing only; the keyword-prefix defect found by this '
